@@ -17,6 +17,7 @@ import NutsModel.C19.DidWeb
 import NutsModel.C19.Ambassador
 import NutsModel.C19.HttpCache
 import NutsModel.C19.Cred
+import NutsModel.C19.CredMore
 import NutsModel.C19.Jwx
 namespace Nuts.C19.Sites
 open Nuts
@@ -388,28 +389,28 @@ def expected : List (String × List Entry) := [
     ⟨"deref:*signerDID", .total "after err == nil of PresentationSigner, which returns a non-nil DID on every ok path (model: Cred.presentationSigner)"⟩]),
   ("vcr/credential/util.go:PresentationIssuanceDate", []),
   ("vcr/credential/util.go:PresentationExpirationDate", [
-    ⟨"nilcheck:ldProof.Expires == nil", .sampled "credential.vp / credential.vc"⟩,
-    ⟨"deref:*ldProof.Expires", .sampled "credential.vp / credential.vc"⟩]),
+    ⟨"nilcheck:ldProof.Expires == nil", .total "GUARD of *ldProof.Expires (CredMore.Cfg.expiresNilChecked)"⟩,
+    ⟨"deref:*ldProof.Expires", .site "PresentationExpirationDate:*ldProof.Expires"⟩]),
   ("vcr/credential/util.go:AutoCorrectSelfAttestedCredential", [
-    ⟨"lencheck:len(credential.Proof) > 0", .sampled "credential.vp / credential.vc"⟩,
-    ⟨"nilcheck:credential.ID == nil", .sampled "credential.vp / credential.vc"⟩,
-    ⟨"discard:ssi.ParseURI(uuid.NewString())", .sampled "credential.vp / credential.vc"⟩,
-    ⟨"lencheck:len(credentialSubject) == 1", .sampled "credential.vp / credential.vc"⟩,
-    ⟨"nilcheck:credentialSubject[0] == nil", .sampled "credential.vp / credential.vc"⟩,
-    ⟨"index:credentialSubject[0]", .sampled "credential.vp / credential.vc"⟩,
-    ⟨"indexw:credentialSubject[0]", .sampled "credential.vp / credential.vc"⟩,
-    ⟨"index:credentialSubject[0]", .sampled "credential.vp / credential.vc"⟩,
-    ⟨"index:credentialSubject[0][\"id\"]", .sampled "credential.vp / credential.vc"⟩,
-    ⟨"index:credentialSubject[0]", .sampled "credential.vp / credential.vc"⟩,
-    ⟨"indexw:credentialSubject[0][\"id\"]", .sampled "credential.vp / credential.vc"⟩,
-    ⟨"indexw:credential.CredentialSubject[0]", .sampled "credential.vp / credential.vc"⟩,
-    ⟨"index:credentialSubject[0]", .sampled "credential.vp / credential.vc"⟩]),
+    ⟨"lencheck:len(credential.Proof) > 0", .total "test: signed credentials are returned untouched (model: CredMore.autoCorrect)"⟩,
+    ⟨"nilcheck:credential.ID == nil", .total "test (ACIn.idNil)"⟩,
+    ⟨"discard:ssi.ParseURI(uuid.NewString())", .total "own input: a fresh UUID always parses"⟩,
+    ⟨"lencheck:len(credentialSubject) == 1", .total "GUARD of credentialSubject[0] (CredMore.Cfg.subjLenExact)"⟩,
+    ⟨"nilcheck:credentialSubject[0] == nil", .total "GUARD of the write into credentialSubject[0] (CredMore.Cfg.nilMapGuard): the discarded unmarshal error leaves a nil map for a scalar subject"⟩,
+    ⟨"index:credentialSubject[0]", .site "AutoCorrectSelfAttestedCredential:credentialSubject[0]"⟩,
+    ⟨"indexw:credentialSubject[0]", .total "same index, under the length guard"⟩,
+    ⟨"index:credentialSubject[0]", .total "same index, under the length guard"⟩,
+    ⟨"index:credentialSubject[0][\"id\"]", .total "map read (nil map reads are total in Go)"⟩,
+    ⟨"index:credentialSubject[0]", .total "same index, under the length guard"⟩,
+    ⟨"indexw:credentialSubject[0][\"id\"]", .site "AutoCorrectSelfAttestedCredential:credentialSubject[0][id]=nil-map"⟩,
+    ⟨"indexw:credential.CredentialSubject[0]", .site "AutoCorrectSelfAttestedCredential:credential.CredentialSubject[0]"⟩,
+    ⟨"index:credentialSubject[0]", .total "same index, under the length guard"⟩]),
   ("vcr/credential/util.go:FilterOnDIDMethod", [
-    ⟨"lencheck:len(didMethods) == 0", .sampled "credential.vp / credential.vc"⟩,
-    ⟨"label:outer", .sampled "credential.vp / credential.vc"⟩,
-    ⟨"range:credentials", .sampled "credential.vp / credential.vc"⟩,
-    ⟨"range:bl", .sampled "credential.vp / credential.vc"⟩,
-    ⟨"branch:continue outer", .sampled "credential.vp / credential.vc"⟩]),
+    ⟨"lencheck:len(didMethods) == 0", .total "test: no methods given = no filtering (CredMore.Cfg.emptyMethodsPass)"⟩,
+    ⟨"label:outer", .total "label of the credential loop"⟩,
+    ⟨"range:credentials", .total "bounded loop (model: CredMore.filterFrom)"⟩,
+    ⟨"range:bl", .total "bounded loop (model: CredMore.subjectsPass)"⟩,
+    ⟨"branch:continue outer", .total "skips the credential (model: subjectsPass = false)"⟩]),
   ("vcr/credential/resolver.go:PresentationSigner", []),
   ("vcr/credential/resolver.go:ParseLDProof", [
     ⟨"lencheck:len(proofs) != 1", .total "guard of proofs[0] (Cfg.proofCountExact)"⟩,
@@ -637,6 +638,12 @@ def credCfg : Cred.Cfg :=
   { subjectErrChecked := has "vcr/credential/util.go:ResolveSubjectDID" "range:credentials"
       && !has "vcr/credential/util.go:ResolveSubjectDID" "discard:credential.SubjectDID()"
     proofCountExact := has "vcr/credential/resolver.go:ParseLDProof" "lencheck:len(proofs) != 1" }
+
+def credMoreCfg : CredMore.Cfg :=
+  { expiresNilChecked := has "vcr/credential/util.go:PresentationExpirationDate" "nilcheck:ldProof.Expires == nil"
+    nilMapGuard := has "vcr/credential/util.go:AutoCorrectSelfAttestedCredential" "nilcheck:credentialSubject[0] == nil"
+    subjLenExact := has "vcr/credential/util.go:AutoCorrectSelfAttestedCredential" "lencheck:len(credentialSubject) == 1"
+    emptyMethodsPass := has "vcr/credential/util.go:FilterOnDIDMethod" "lencheck:len(didMethods) == 0" }
 
 def jwxCfg : Jwx.Cfg :=
   { kidAlgSigGuard := has "crypto/jwx.go:JWTKidAlg" "lencheck:len(j.Signatures()) != 1"
